@@ -110,4 +110,4 @@ PROPS["C13"] = {
     "assumptions": ["charwise-pma, std and portable-simd are identified in the model (same function); they are covered by the feature-matrix run only"],
 }
 
-SETUP_EXTRA = []
+SETUP_EXTRA = [extras.setup_feature_builds]
